@@ -46,6 +46,8 @@ ActionFor(label) ==
       [] label = "stale" -> (C!UnlinkStale \/ C!UnlinkStaleRaises)
       [] label = "comp" -> C!CompressFile
       [] label = "rmbin" -> C!UnlinkBin
+      [] label = "comp_begin" -> C!Stutter
+      [] label = "cchunk" -> C!Stutter
       [] label = "delete" -> C!Delete
       [] label = "return" -> C!Return
       [] label = "crash" -> C!Crash
